@@ -96,9 +96,18 @@ def canon(v):
 
 
 def edit_in_place(rng, s):
-    """one of the in-place edits the API offers on a segment; returns its description"""
-    k = rng.randrange(4)
+    """one of the in-place edits the API offers on a segment (or on its mutable Point objects); returns its description"""
+    k = rng.randrange(7)
     i = rng.randrange(len(s.points))
+    if k == 4:
+        s.points[i].x += rng.choice([1.0, -7.5, 40.25]); s.points[i].y -= rng.choice([2.0, 3.25, 60.0])
+        return f'seg[{i}].x += ..; seg[{i}].y -= ..  (Point mutated in place)'
+    if k == 5:
+        s.points[i] += Point(rng.choice([3.0, -12.5, 80.0]), rng.choice([1.5, -40.0]))      # Point.__iadd__ mutates the Point object
+        return f'seg[{i}] += <vector>  (Point.__iadd__)'
+    if k == 6:
+        s.points[i].rotate(Point(10.0, -5.0), 0.7)
+        return f'seg[{i}].rotate(..)  (Point mutated in place)'
     if k == 0:
         s[i] = Point(s[i].x + rng.choice([1.0, -7.5, 0.25, 100.0]), s[i].y + rng.choice([2.0, -3.25, 50.0]))
         return f'seg[{i}] = <new point>'
@@ -131,3 +140,56 @@ def freshness(rng, s, queries):
         except Exception as e: b = ('raised', type(e).__name__)
         if a != b: out.append(f'after {what}, {name} on the edited object differs from the same query on a fresh object with the same control points: {a} vs {b}')
     return out
+
+
+def path_freshness(rng, segs, queries, closed=True, disturb=None):
+    """Path-level stale-state oracle.  Build a path from (fresh copies of) segs; ask every query twice -- the second answers must
+    equal those of a freshly built path (asking must not change later answers), optionally after the library calls in
+    `disturb` --; then edit one segment IN PLACE through the path's own segment list (path.asSegments()[i]...), ask again
+    and compare with a freshly built path with the same control points.  Returns failure texts."""
+    from beziers.path import BezierPath
+    def build(ss):
+        p = BezierPath.fromSegments([fresh_copy(x) for x in ss]); p.closed = closed; return p
+    def ask(p):
+        out = {}
+        for name, q in queries.items():
+            try: out[name] = canon(q(p))
+            except Exception as e: out[name] = ('raised', type(e).__name__)
+        return out
+    path = build(segs)
+    ask(path)
+    for d in (disturb or []):
+        try: d(path)
+        except Exception: pass
+    a, b = ask(path), ask(build(segs))
+    out = [f'{n} asked again on the same (unedited) path differs from a freshly built equal path: {a[n]} vs {b[n]}' for n in queries if a[n] != b[n]]
+    if out: return out
+    live = path.asSegments()
+    what = edit_in_place(rng, live[rng.randrange(len(live))])
+    a, b = ask(path), ask(build(path.asSegments()))
+    return [f'after editing a segment of the path in place ({what}), {n} differs from a freshly built path with the same control points: {a[n]} vs {b[n]}'
+            for n in queries if a[n] != b[n]]
+
+
+def closed_contour(rng, n=None, size=300.0, ints=False):
+    """segments of a closed star-shaped contour of mixed kinds around a random centre (each segment gets its own Point objects)"""
+    import math
+    n = n or rng.randint(3, 6)
+    cx, cy = rng.uniform(-200, 200), rng.uniform(-200, 200)
+    vs = []
+    for k in range(n):
+        a = 2 * math.pi * k / n + rng.uniform(-0.3, 0.3) / n; r = rng.uniform(0.3, 1.0) * size
+        x, y = cx + r * math.cos(a), cy + r * math.sin(a)
+        vs.append((float(round(x)), float(round(y))) if ints else (x, y))
+    segs = []
+    for k in range(n):
+        a, b = vs[k], vs[(k + 1) % n]
+        kind = rng.choice([2, 3, 4])
+        mids = []
+        for j in range(1, kind - 1):
+            u = j / (kind - 1.0)
+            mx, my = a[0] + (b[0] - a[0]) * u, a[1] + (b[1] - a[1]) * u
+            f = rng.uniform(-0.1, 0.25)
+            mids.append((mx + (mx - cx) * f, my + (my - cy) * f))
+        segs.append(KINDS[kind](*[Point(x, y) for x, y in [a] + mids + [b]]))
+    return segs
